@@ -136,6 +136,8 @@ def sample_config(rng, family=None, families=None, n_range=(2, 14), d_range=(1, 
     d = rng.randint(dlo, max(dlo, d_range[1]))
     p = dict(n_clusters=K, max_iter=rng.randint(*max_iter_range), random_state=rng.randrange(10000),
              solver=choice(rng, ["adam", "sgd"]), learning_rate=choice(rng, list(lr_choices)))
+    if rng.random() < 0.12:
+        p["verbose"] = True        # progress printing must not change anything else (stdout is captured by the harness)
     p.update(sample_gemini_params(rng, family, allow_precomputed, allow_instance, allow_callable))
     if fam["batched"]:
         p["batch_size"] = weighted(rng, [(None, 2), (1, 1), (2, 1), (3, 1), (rng.randint(1, max(1, n)), 3), (n, 1),
